@@ -370,6 +370,16 @@ for pid, lvl in (('C11', 'other'), ('C05', 'other'), ('C03', 'other')):
     PROPS[pid]['assumptions'] = ASSUME_COMMON + ASSUME_SLAB + ASSUME_ND + ASSUME_PWL + PROPS[pid]['assumptions'] + _FEAS_ASSUME + _ELIM_ASSUME + (_WIT_ASSUME if pid == 'C05' else [])
 PROPS['C11']['technique'] = 'Verus contracts on the extracted decision logic around the LP solver (is_edge_feasible, phase_two, phase_inh: faults can only lead to less pruning - for every answer of the LP / tolerance / repair oracles, not only single faults) and on infeasible_elimination itself (no panic, termination, well-formedness and node kinds for every answer of the oracles) + bounded fault enumeration (bc faults) with the cfg hook for the tree-level consequences'
 PROPS['C11']['level_text'] = 'Mixed. ' + _FEAS_TEXT + 'This holds for every answer pattern of the oracles, i.e. for any number and kind of LP faults. Also PROVED at tree level (unit pwl_elim, binary trees): ' + _ELIM_TEXT + 'BOUNDED (bc faults, fault enumeration with the cfg hook): the remaining tree-level consequences through infeasible_elimination / pruned composition - same function, sound caches, only less pruning - for every single fault position and kind. ' + PROPS['C11']['level_text']
+# units shared with other properties: only these functions / clauses are C05's (check: clause_filter)
+PROPS['C05']['clause_filter'] = {
+    'aff_algebra': (r'^(contains|intersection_n)$', None),
+    'pwl_compose': (None, r'wit_inv|states_kept'),
+    'pwl_compose_pruned': (None, r'wit_inv|gi_inv'),
+    'pwl_ops_tree': (None, r'wit_inv|gi_inv'),
+    'pwl_tree': (None, r'wit_inv|states_kept'),
+    'pwl_reduce': (None, r'wit_inv|emb_inv'),
+    'pwl_elim': (r'^(phase_one|phase_inh|phase_two)$', r'wit_inv|wit_cond|wits_cond|contains_tol|tol_sat'),
+}
 PROPS['C05']['technique'] = 'Verus contracts on the extracted witness-producing functions (phase_two, phase_inh: every cached witness passed `contains` for the polytope it is cached for), on Polytope::contains (the 1e-8 row test) and on infeasible_elimination (tree-level cache invariant: witnesses right at entry are right for the pruned tree) + bounded replay (bc prune, bc faults[cache]) of the cache contract on whole trees and through the other operations'
 PROPS['C05']['level_text'] = 'Mixed. ' + _FEAS_TEXT + _WIT_TEXT + 'BOUNDED (bc prune / faults / mirror): whole histories end to end (each step is proved, their chaining in the distillation pipeline is replayed), remove_axes, infeasible marks only on regions without interior, mirror_points results lie in the polytope. ' + PROPS['C05']['level_text']
 PROPS['C03']['technique'] = 'Verus contracts on the extracted pruning oracle (is_edge_feasible), LP phase (phase_two), forward_if_redundant and infeasible_elimination: pruning decisions come only from Infeasible verdicts, and the function changes at most for inputs whose original evaluation passes a node with such a verdict (conditional function preservation, LP soundness assumed) + bounded replay (bc prune) of unconditional function preservation through infeasible_elimination and compose::<true,_>'
